@@ -744,11 +744,10 @@ const historyRule = " Family history: ALL sequences of <= D operations over {Set
 	"histories whose nested Set addresses a key that holds no container are not histories of the family and are not counted."
 
 // runHistory enumerates the family; idx continues the check's running case index.
-func runHistory(c *hl.Ctx, idx int) int {
-	depth := 4
-	if c.Thorough() {
-		depth = 5
-	}
+// runHistory enumerates the histories of from..to operations (the deepest level, thorough tier only, runs after the
+// other families so that its cost cannot take their budget).
+func runHistory(c *hl.Ctx, idx int, from, to int) int {
+	depth := to
 	alpha := hAlphabet()
 	starts := hStartsV
 	kinds := hKinds
@@ -764,19 +763,25 @@ func runHistory(c *hl.Ctx, idx int) int {
 	for _, s := range starts {
 		snames = append(snames, s.Name)
 	}
-	c.Info("history_depth", depth)
+	c.Info(fmt.Sprintf("history_depth_%d_to", from), depth)
 	c.Info("history_operations", names)
 	c.Info("history_starts", snames)
+	if from == 0 {
 	c.Assume("the value tree a history of Set/Get denotes is that of an ordered map: Set on a present key replaces the value in place (the order of first insertion stays), as objectBase.Set documents and the unchanged tree does",
 		"when a decoded value repeats a key the statement does not say which pair Set replaces: for that start only Get-after-Set, Size()==len(MarshalBinary()) and the decode/re-marshal identity are demanded")
+	}
 
 	enumerated := 0
 	ops := make([]hOp, 0, depth)
 	sel := make([]int, depth)
-	for d := 0; d <= depth; d++ {
+	full := 4
+	if c.Thorough() {
+		full = 5
+	}
+	for d := from; d <= depth; d++ {
 		for _, kind := range kinds {
 			for si := range starts {
-				if !starts[si].Deep && d > depth-1 {
+				if !starts[si].Deep && d > full-1 {
 					continue
 				}
 				for i := 0; i < d; i++ {
